@@ -356,6 +356,7 @@ def _run_check(mod, modname, prop_id, tier, seed, jobs, scratch, t0,
     for rec in tot["violations"]:
         by_sig.setdefault(rec["sig"], []).append(rec)
     exit_code = 0
+    confirmed = False
     lines = []
     _worker_init(modname, scratch)
     replay_dir = os.path.join(VERIF, "replays", prop_id)
@@ -388,8 +389,12 @@ def _run_check(mod, modname, prop_id, tier, seed, jobs, scratch, t0,
                       default=str)
         lines.append("VIOLATION property=%s replay=%s signature=%s"
                      % (prop_id, path, sig))
-        if exit_code == 0:
-            exit_code = 1
+        confirmed = True
+
+    if confirmed:
+        # a violation that reproduced on re-execution is a violation, even
+        # if other signatures of the same run did not reproduce in isolation
+        exit_code = 1
 
     # ---- known findings: must still be findings (reported, never hidden)
     for f in load_known_findings().get("findings", []):
